@@ -172,6 +172,11 @@ def analyse(cpu, mode, n, spec, E, recs, res, tier):
             wits.append(alt)
         for w in wits:
             stage_checks(cpu, mode, w, fmts, res)
+        # (c) selector fields that the exploration realized under the cap (only 2 of their values were followed):
+        # every other value of such a field is tried CONCRETELY on the first witness (real decoder + all stages)
+        for w2 in decx.siblings(r, data, limit=40):
+            res["capped_field_siblings"] = res.get("capped_field_siblings", 0) + 1
+            stage_checks(cpu, mode, w2, fmts, res)
     if recs and len(res["samples"]) < 3:
         r = recs[len(recs) // 2]
         res["samples"].append({"cpu": cpu, "mode": mode, "focus": spec.format if spec else None, "input_len": n, "paths": len(recs), "complete": E.complete,
